@@ -105,8 +105,11 @@ def run_alloc_null_mir(res, fx):
                 nm = strip_generics(r2 or d2 or "")
                 if nm.endswith("::is_null") and tj["args"] and operand_locals(tj["args"][0]) & S:
                     tests.append((bj, tj))
+                elif (nm.endswith("::as_mut") or nm.endswith("::as_ref") or nm.endswith("NonNull::new")) and ("ptr::" in nm) and tj["args"] and operand_locals(tj["args"][0]) & S:
+                    # Option-returning null test: None <=> null
+                    tests.append((bj, dict(tj, _opt=True)))
             ok1 = len(tests) >= 1
-            res.check(ok1, "ALLOC-NULL/MIR", key + "|1-tested", w, f"the result of {name} is never tested with is_null()")
+            res.check(ok1, "ALLOC-NULL/MIR", key + "|1-tested", w, f"the result of {name} is never tested with is_null() (or as_mut()/as_ref()/NonNull::new)")
             if not ok1:
                 for i in (2, 3, 4):
                     res.bad("ALLOC-NULL/MIR", key + f"|{i}", w, "not established: there is no null test")
@@ -124,6 +127,8 @@ def run_alloc_null_mir(res, fx):
                     if st["k"] == "assign" and not st["place"]["proj"] and st["rv"]["k"] in ("use", "unary") and \
                             (operand_locals(st["rv"].get("op", st["rv"].get("v", {"k": "x"}))) & R if st["rv"]["k"] == "use" else operand_locals(st["rv"]["v"]) & R):
                         R.add(st["place"]["local"])
+                    if st["k"] == "assign" and not st["place"]["proj"] and st["rv"]["k"] == "discriminant" and tt.get("_opt") and place_locals(st["rv"]["place"]) & R:
+                        R.add(st["place"]["local"])
                 if blk["term"]["k"] == "switch" and operand_locals(blk["term"]["discr"]) & R:
                     sw = (cur, blk["term"])
                     break
@@ -134,8 +139,14 @@ def run_alloc_null_mir(res, fx):
                 continue
             wb, wt = sw
             zero_target = [b for v, b in wt["targets"] if v == "0"]
-            nonnull = zero_target[0] if zero_target else None
-            nullb = wt["otherwise"]
+            if tt.get("_opt"):
+                # discriminant 0 = None = null pointer
+                one = [b for v, b in wt["targets"] if v == "1"]
+                nullb = zero_target[0] if zero_target else wt["otherwise"]
+                nonnull = one[0] if one else (wt["otherwise"] if zero_target else None)
+            else:
+                nonnull = zero_target[0] if zero_target else None
+                nullb = wt["otherwise"]
             # (2) the null edge
             rz = reachable(f, nullb)
             rz = {b for b in rz if not f["blocks"][b]["cleanup"]}
@@ -209,7 +220,7 @@ def uses_of(blk, S, skip_call=None):
             u |= operand_locals(a)
         if u & S:
             nm = strip_generics(callee(t)[1] or callee(t)[0] or "?")
-            if not nm.endswith("::is_null"):
+            if not (nm.endswith("::is_null") or ("ptr::" in nm and (nm.endswith("::as_mut") or nm.endswith("::as_ref") or nm.endswith("NonNull::new")))):
                 yield f"argument of {nm}", t["line"]
     elif t["k"] == "switch" and operand_locals(t["discr"]) & S:
         yield "switch", t.get("line", "?")
